@@ -19,7 +19,8 @@ CONSTANTS N,        \* samples
           D,        \* densities range over 1..D (ranks)
           NLab,     \* labels 1..NLab
           Forces,   \* subset of BOOLEAN
-          QMax      \* query distances (ranks) range over 0..QMax
+          QMax,     \* query distances (ranks) range over 0..QMax
+          Unit      \* density - 1 in these units: 1 = integer densities; 2 = half-integer grid (densities within 1 but not equal)
 Nodes == 1..N
 NIL == 0
 NEGINF == -100000
@@ -40,8 +41,8 @@ InitRest == /\ adj = adj0
             /\ cost = [i \in Nodes |-> NEGINF]
             /\ nc = 0
             /\ order = <<>>
-Init == /\ Dens \in [Nodes -> 1..D]
-        /\ InitC = [i \in Nodes |-> Dens[i] - 1]
+Init == /\ Dens \in [Nodes -> Unit..D]
+        /\ InitC = [i \in Nodes |-> Dens[i] - Unit]
         /\ L \in [Nodes -> 1..NLab]
         /\ adj0 \in [Nodes -> {S \in SUBSET Nodes : Cardinality(S) = KN}] /\ \A i \in Nodes : i \notin adj0[i]
         /\ force \in Forces
